@@ -2,5 +2,6 @@
 package all
 
 import (
+	_ "kvh/engines/blobstore"
 	_ "kvh/engines/c20"
 )
